@@ -216,7 +216,9 @@ func Flush() {
 		fmt.Fprintln(os.Stderr, "vkit: cannot encode stats:", err)
 		return
 	}
-	if err := os.WriteFile(filepath.Join(outd, "stats.json"), b, 0o644); err != nil {
+	// one file per process: the workers of a native fuzzing campaign share
+	// the output directory with their coordinator
+	if err := os.WriteFile(filepath.Join(outd, fmt.Sprintf("stats.%d.json", os.Getpid())), b, 0o644); err != nil {
 		fmt.Fprintln(os.Stderr, "vkit: cannot write stats:", err)
 	}
 }
